@@ -21,17 +21,8 @@ def selftest():
     sem.selftest()
 
 
-def check(case):
-    model = case[1]
-    fm, fails = cm.built(model)
-    if fails:
-        return fails
-    try:
-        res = FMCoreFeatures().execute(fm).get_result()
-        engine.tick()
-        names = [f.name for f in res]
-    except Exception as exc:  # noqa: BLE001
-        return [Fail('raises:%s' % type(exc).__name__, str(exc))]
+def judge(res, model):
+    names = [f.name for f in res]
     out = []
     if len(names) != len(set(names)):
         out.append(Fail('duplicates', names))
@@ -49,6 +40,22 @@ def check(case):
             if missing:
                 out.append(Fail('core-missing', {'returned': names, 'missing': missing}))
     return out
+
+
+def check(case):
+    model = case[1]
+    if case[0] == 'SE':
+        return opscfg.edit_history(model, FMCoreFeatures, judge)
+    fm, fails = cm.built(model)
+    if fails:
+        return fails
+    try:
+        res = FMCoreFeatures().execute(fm).get_result()
+        engine.tick()
+        [f.name for f in res]
+    except Exception as exc:  # noqa: BLE001
+        return [Fail('raises:%s' % type(exc).__name__, str(exc))]
+    return judge(res, model)
 
 
 def outcome(case):
